@@ -190,6 +190,30 @@ def r20_3(ctx: Ctx, entry, argc, pr):
     dom = g.dominators()
     for gn in gen_nodes:
         ok = any(a.id in dom[gn.id] and "field:output_dir" in full(fdg.deps_of(a.ast.value)) for a in assign_nodes)
+        # ... and the directory is the one the command passed, not one named by the process environment (shared by every
+        # concurrent invocation and outside the private temporary directory)
+        env = [a for a in assign_nodes if a.id in dom[gn.id] and ({"field:environ", "call:getenv"} & full(fdg.deps_of(a.ast.value)))]
+
+        def env_first(fn_node):
+            """some assignment of the function lets the environment win over what was passed: `environ.get(K, passed)` / `env or passed`
+            (as a fallback AFTER the passed value, `passed or environ.get(K)`, it is dead code for this command, which always passes one)"""
+            for x in ast.walk(fn_node):
+                if isinstance(x, ast.Assign):
+                    v = x.value
+                    if isinstance(v, ast.Call) and "environ" in norm(v.func) and len(v.args) >= 2:
+                        return True
+                    if isinstance(v, ast.Call) and norm(v.func).endswith("getenv") and len(v.args) >= 2:
+                        return True
+                    if isinstance(v, ast.BoolOp) and isinstance(v.op, ast.Or) and ("environ" in norm(v.values[0]) or "getenv" in norm(v.values[0])):
+                        return True
+            return False
+        if env and not env_first(gr.node):
+            env = []
+        if env:
+            ctx.ob("R20.3", f"{gr.qual}: {norm(env[0].ast)[:60]} depends on the environment", (gr, env[0].ast), False,
+                   "the output directory can be taken from an environment variable in preference to --output-dir: the report files of "
+                   "concurrent runs land in one shared directory, outside the private temporary directory, and stay there",
+                   key=key_of("R20.3", gr, None, "output dir from environment"))
         ctx.ob("R20.3", f"{gr.qual}: outputDir installed before {norm(gn.ast)[:50]}", (gr, gn.ast), ok,
                "project.outputDir := args.output_dir dominates report.generate()" if ok else
                "report.generate() can run with the default './' output directory (writes into the cwd)",
